@@ -338,10 +338,75 @@ def job_colr0(jc):
     jc.expect_reached("ok")
 
 
+# ---------------------------------------------------------------- each glyph depends on its own placement only
+
+
+def _glyph_outlines(specs, together):
+    """specs: [(name, viewBox divisor k, user dx)] all drawing the SAME path data.  Migrate the glyphs into one
+    UFO with one cache (`together`) or each into a UFO of its own; -> {name: outlines of the glyphs its layers use}.
+    Reuse is disabled (-1): outlines must then simply be the path placed by the glyph's own viewBox -> font map."""
+    from nanoemoji.color_glyph import ColorGlyph
+    from picosvg.geometric_types import Rect
+
+    path = "M120,120 L600,120 L600,480 L120,480 Z"
+    out = {}
+    ufo, cache = RC.mk_ufo(), GR.GlyphReuseCache(-1)
+    for i, (name, k, dx) in enumerate(specs):
+        if not together:
+            ufo, cache = RC.mk_ufo(), GR.GlyphReuseCache(-1)
+        g = ufo.newGlyph(name)
+        g.width = RC.WIDTH
+        svg = type("Svg", (), {"view_box": (lambda kk: (lambda self: Rect(0, 0, 1200 // kk, 1200 // kk)))(k)})()
+        cg = ColorGlyph(ufo, "", "", name, 2 + i, (0x41 + i,), (P.PaintGlyph(glyph=path, paint=RC.paint_solid()),), svg, Affine2D(1, 0, 0, 1, dx, 0), None)
+        res = WF._migrate_paths_to_ufo_glyphs(cg, cache)
+        out[name] = [outline(ufo, lf.glyph) for layer in res.painted_layers for lf in ps.denote(layer)]
+    return out
+
+
+def replay_independent(inp):
+    specs = [("g0", int(inp["k0"]), int(inp["dx0"])), ("g1", int(inp["k1"]), int(inp["dx1"]))]
+    try:
+        a, b = _glyph_outlines(specs, True), _glyph_outlines(specs, False)
+    except Exception as e:
+        return {"raised": repr(e)}
+    if a != b:
+        return {"glyphs (viewBox 1200/k, user dx)": specs, "outlines when built in one font": {k: str(v)[:200] for k, v in a.items()}, "outlines when built alone": {k: str(v)[:200] for k, v in b.items()},
+                "problem": "a glyph's outline depends on which glyphs were built before it"}
+    return None
+
+
+def job_independent(jc):
+    """Two glyphs with literally the same path data but different viewBox size / user shift (solver variables,
+    forked): what each gets in a shared font equals what it gets alone."""
+    jc.encode(WF._migrate_paths_to_ufo_glyphs)
+    inp = {n: core.SymNum(z3.Int(n)) for n in ("k0", "k1", "dx0", "dx1")}
+
+    def body():
+        k0, k1 = core.integer("k0", 1, 3).concretize(), core.integer("k1", 1, 3).concretize()
+        dx0, dx1 = core.integer("dx0", 0, 1).concretize() * 64, core.integer("dx1", 0, 1).concretize() * 64
+        specs = [("g0", k0, dx0), ("g1", k1, dx1)]
+        return _glyph_outlines(specs, True), _glyph_outlines(specs, False)
+
+    results = jc.explore(body, max_paths=200)
+    for r in results:
+        if not jc.no_exception(r, inp, lambda i: replay_independent({**i, "dx0": int(i["dx0"]) * 64, "dx1": int(i["dx1"]) * 64}), "C06:independent:raises"):
+            continue
+        a, b = r.value
+        jc.reach(r, "ok")
+        jc.prove(r, z3.BoolVal(a == b), "a glyph's outlines do not depend on the glyphs built before it (same path data, different placement)", inp, _replay_independent_scaled, key="C06:independent")
+    jc.expect_reached("ok")
+
+
+def _replay_independent_scaled(inp):
+    return replay_independent({**inp, "dx0": int(inp["dx0"]) * 64, "dx1": int(inp["dx1"]) * 64})
+
+
+
 def jobs(tier):
     js = [Job(f"migrate[{k}]", job_migrate, paint=k) for k in (RC.QUICK_PAINTS if tier == "quick" else RC.PAINTS)]
     js.append(Job("colr0_layers[reused]", job_colr0, which="colr0"))
     js.append(Job("glyf_components[reused]", job_colr0, which="glyf"))
+    js.append(Job("glyphs independent of build order", job_independent))
     # OT-SVG leg: the documents emitted with reuse (shared <use>/<defs>/gradients) render each source layer
     # exactly as the un-reused source (oracle = source layers), see harness/C02.py
     from harness import C02
